@@ -5,17 +5,17 @@ Import ListNotations.
 
 (* ------------------------------------------------------------------ ties to the source *)
 
-Lemma macro_shapes :
-  exn_macro_try = expected_macro_try /\ exn_macro_catch = expected_macro_catch /\
-  exn_macro_catch_in = expected_macro_catch_in /\ exn_macro_throw = expected_macro_throw.
-Proof. repeat split; reflexivity. Qed.
-
-Lemma source_shapes :
-  exn_src_try = expected_src_try /\ exn_src_try_end = expected_src_try_end /\
-  exn_src_try_fail = expected_src_try_fail /\ exn_src_throw = expected_src_throw /\
-  exn_src_catch = expected_src_catch /\ exn_src_buffer = expected_src_buffer /\
-  exn_src_len = expected_src_len.
-Proof. repeat split; reflexivity. Qed.
+(* Token strings found in the source against the shapes the machine encodes: decided by
+   computation.  The lemma is generic so that the comparison itself sits in Properties_C07.v: a
+   changed macro or function body breaks that one obligation and nothing else. *)
+Lemma strings_equal_dec : forall l : list (string * string),
+  if forallb (fun p => String.eqb (fst p) (snd p)) l
+  then Forall (fun p => fst p = snd p) l else True.
+Proof.
+  intros l. destruct (forallb _ l) eqn:H; [|exact I].
+  rewrite forallb_forall in H. apply Forall_forall.
+  intros p Hin. apply String.eqb_eq. now apply H.
+Qed.
 
 Lemma clear_active_generated : clear_active_on_catch = true.
 Proof. reflexivity. Qed.
